@@ -115,7 +115,11 @@ func (k Keeper) HandleUpgrade(ctx sdk.Ctx, aclKey string, paramValue interface{}
 				ctx.Logger().Error(fmt.Sprintf("unable to convert %v to upgrade, can't emit event about upgrade, at height: %d", paramValue, ctx.BlockHeight()))
 				return sdk.Result{Events: ctx.EventManager().Events()}
 			}
-			codec.UpgradeHeight = u.Height
+			// a simulated transaction (Query app/simulate runs on a "previous" context over a discarded
+			// store layer) must not touch the process-wide upgrade schedule
+			if !ctx.IsPrevCtx() {
+				codec.UpgradeHeight = u.Height
+			}
 			ctx.EventManager().EmitEvent(sdk.NewEvent(
 				types.EventUpgrade,
 				sdk.NewAttribute(sdk.AttributeKeyModule, types.ModuleName),
@@ -183,9 +187,14 @@ func handleUpgradeAfterUpdate(ctx sdk.Ctx, aclKey string, paramValue interface{}
 			ctx.Logger().Error(fmt.Sprintf("unable to convert %v to upgrade, can't emit event about upgrade, at height: %d", paramValue, ctx.BlockHeight()))
 			return sdk.Result{Events: ctx.EventManager().Events()}
 		}
-		codec.UpgradeHeight = newUpgrade.Height
-		codec.OldUpgradeHeight = newUpgrade.OldUpgradeHeight
-		codec.UpgradeFeatureMap = codec.SliceToExistingMap(newUpgrade.GetFeatures(), codec.UpgradeFeatureMap)
+		// The upgrade schedule lives in process globals that gate consensus rules. A simulated
+		// transaction (Query app/simulate: "previous" context over a discarded store layer, signature
+		// not verified) leaves no trace in the store and must leave none here either.
+		if !ctx.IsPrevCtx() {
+			codec.UpgradeHeight = newUpgrade.Height
+			codec.OldUpgradeHeight = newUpgrade.OldUpgradeHeight
+			codec.UpgradeFeatureMap = codec.SliceToExistingMap(newUpgrade.GetFeatures(), codec.UpgradeFeatureMap)
+		}
 		ctx.EventManager().EmitEvent(sdk.NewEvent(
 			types.EventUpgrade,
 			sdk.NewAttribute(sdk.AttributeKeyModule, types.ModuleName),
